@@ -5,7 +5,6 @@ import (
 	"context"
 	"encoding/hex"
 	"encoding/json"
-	"errors"
 	"fmt"
 	"os"
 	"sync"
@@ -13,37 +12,12 @@ import (
 	"github.com/indexsupply/shovel/dig"
 	"github.com/indexsupply/shovel/eth"
 	"github.com/indexsupply/shovel/wpg"
-	"github.com/jackc/pgx/v5"
-	"github.com/jackc/pgx/v5/pgconn"
 	"verif/harness/abi"
 	"verif/harness/lib"
 )
 
 const c13Header = `From Shovel Require Import Base.Outcome Model.AbiType Model.AbiScan Model.AbiEnc Model.AbiParse Model.AbiSig Corr.AbiCase Corr.RunC13.
 From Coq Require Import List NArith ZArith. Import ListNotations. Open Scope N_scope.`
-
-// a Go-level wpg.Conn that records what Integration.Insert copies
-type recConn struct{ rows [][]any }
-
-func (c *recConn) CopyFrom(_ context.Context, _ pgx.Identifier, _ []string, src pgx.CopyFromSource) (int64, error) {
-	var n int64
-	for src.Next() {
-		v, err := src.Values()
-		if err != nil {
-			return n, err
-		}
-		c.rows = append(c.rows, v)
-		n++
-	}
-	return n, src.Err()
-}
-func (c *recConn) Exec(context.Context, string, ...any) (pgconn.CommandTag, error) {
-	return pgconn.CommandTag{}, errors.New("unexpected Exec")
-}
-func (c *recConn) QueryRow(context.Context, string, ...any) pgx.Row { return nil }
-func (c *recConn) Query(context.Context, string, ...any) (pgx.Rows, error) {
-	return nil, errors.New("unexpected Query")
-}
 
 type known struct {
 	name string
@@ -132,6 +106,8 @@ type logDesc struct {
 	Data   string   `json:"data"`
 }
 
+var gateMaxData = 640
+
 func gateCase(out *lib.Out, g *abi.Gen, d *abi.Decl, kind string) error {
 	ig, err := dig.New("ig", d.Event, nil, wpg.Table{Name: "t"}, dig.Notification{}, "")
 	if err != nil {
@@ -159,12 +135,16 @@ func gateCase(out *lib.Out, g *abi.Gen, d *abi.Decl, kind string) error {
 		for try := 0; ; try++ {
 			v := g.Value(d.Root, 3)
 			data := abi.Encode(d.Root, v)
-			if len(data) <= 1500 || try >= 30 {
-				return data, len(abi.ExpectedRows(d.Root, v, d.NCols))
+			if len(data) <= gateMaxData || try >= 30 {
+				n := len(abi.ExpectedRows(d.Root, v, d.NCols))
+				if !d.Root.InDomain() {
+					n = -1 // outside the row rule: only "reaches the decoder" is checked
+				}
+				return data, n
 			}
 		}
 	}
-	if probe, _ := valid(); len(probe) > 4000 {
+	if probe, _ := valid(); len(probe) > gateMaxData {
 		return nil // a declaration whose smallest encodings are large: skipped (volume)
 	}
 	type lg struct {
@@ -252,7 +232,7 @@ func gateCase(out *lib.Out, g *abi.Gen, d *abi.Decl, kind string) error {
 	// the same logs (those that did not fail) through Integration.Insert
 	if ok && d.NCols > 0 {
 		ig2, _ := dig.New("ig", d.Event, nil, wpg.Table{Name: "t"}, dig.Notification{}, "")
-		conn := &recConn{}
+		conn := &abi.RecConn{}
 		blocks := make([]eth.Block, 1)
 		blocks[0].Txs = make(eth.Txs, 1)
 		blocks[0].Txs[0].Logs = insertLogs
@@ -264,7 +244,7 @@ func gateCase(out *lib.Out, g *abi.Gen, d *abi.Decl, kind string) error {
 			ok, msg = false, "Integration.Insert panicked: "+pmsg
 		case err != nil:
 			ok, msg = false, "Integration.Insert failed: "+err.Error()
-		case int(nr) != insertWant || len(conn.rows) != insertWant:
+		case int(nr) != insertWant || len(conn.Rows) != insertWant:
 			ok, msg = false, fmt.Sprintf("Integration.Insert copied %d rows, processLog gave %d", nr, insertWant)
 		}
 	}
@@ -276,15 +256,19 @@ func gateCase(out *lib.Out, g *abi.Gen, d *abi.Decl, kind string) error {
 }
 
 func runC13(cfg lib.Cfg) error {
-	out := lib.NewOut("C13", cfg.Out, c13Header, "run", 24)
+	per := 24
+	if cfg.Thorough() {
+		per = 10
+	}
+	out := lib.NewOut("C13", cfg.Out, c13Header, "run", per)
 	out.Rule = "signature: an input is a tuple or an array, or the event is a known-answer event; gate: always (each case pushes the matching log, every other topic count, six other first topics, empty/nil topic lists and matching logs with truncated/random/no data through one integration)"
 	if cfg.Replay != "" {
 		return replayC13(cfg, out)
 	}
 	r := lib.NewRNG(cfg.Seed)
-	nSig, nGate := 300, 60
+	nSig, nGate := 300, 48
 	if cfg.Thorough() {
-		nSig, nGate = 10000, 1500
+		nSig, nGate, gateMaxData = 8000, 500, 1500
 	}
 	for _, k := range knownEvents() {
 		d, err := abi.NewDecl(k.name, k.ins)
